@@ -72,6 +72,9 @@ CHECKS["C09"] = {
             {"run": "TestVfC09PackLimit", "quick": 16000, "thorough": 3934430, "timeout_thorough": 3000, "shards_quick": 8, "shards_thorough": 16,
              "timeout_thorough": 3000},
         ]},
+        {"engine": "P", "pkg": "app/router", "tests": [
+            {"run": "TestVfC09StreamCeiling", "quick": 4000, "thorough": 600000, "shards_quick": 8, "shards_thorough": 16, "timeout_thorough": 3000},
+        ]},
         {"engine": "E", "proxy": ["plain"], "tests": [
             {"run": "TestVfC09Listeners", "quick": 800, "thorough": 720000, "shards_quick": 8, "shards_thorough": 16, "timeout_thorough": 3400},
         ]},
@@ -171,6 +174,9 @@ CHECKS["C08"] = {
         {"engine": "P", "pkg": "app/router", "tests": [
             {"run": "TestVfC08StorePolicy", "quick": 15000, "thorough": 15000000, "timeout_thorough": 3000, "shards_quick": 4, "shards_thorough": 16},
             {"run": "TestVfC08Ageing", "quick": 15000, "thorough": 15000000, "timeout_thorough": 3000, "shards_quick": 4, "shards_thorough": 16},
+        ]},
+        {"engine": "P", "pkg": "internal/cache", "tests": [
+            {"run": "TestVfC08MemExpiry", "quick": 16, "thorough": 640, "shards_quick": 8, "shards_thorough": 16, "timeout_thorough": 3000},
         ]},
         {"engine": "E", "proxy": ["plain"], "tests": [
             {"run": "TestVfC08Timed", "quick": 4, "thorough": 260, "shards_quick": 4, "shards_thorough": 8, "timeout_thorough": 3400, "shrinktime": "30s"},
